@@ -33,7 +33,7 @@ EXTENDS Integers, Sequences, FiniteSets, TLC
 CONSTANTS
     Member,     \* members of the (current bandtss) signing group
     Stranger,   \* addresses outside the group (may still send any message)
-    T,          \* group threshold = committee size
+    TSet,       \* possible group thresholds (= committee size)
     MaxSig,     \* bound on the number of signings (ids 1..MaxSig)
     MaxSerial,  \* bound on the number of nonce pairs an address registers
     MaxDESet,   \* possible values of tss params.max_de_size
@@ -49,7 +49,7 @@ Token == Addr \X (1..MaxSerial)      \* <<address, registration serial>>
 
 VARIABLES
     h,        \* height of the block in progress
-    params,   \* [maxDE, maxAtt, period, penalty]
+    params,   \* [t, maxDE, maxAtt, period, penalty]
     q,        \* address -> sequence of serials: the DE queue (head first)
     nser,     \* address -> number of nonce pairs registered so far
     tssAct,   \* member -> x/tss Member.IsActive
@@ -69,15 +69,18 @@ VARIABLES
     pen,      \* members deactivated by the last step
     ret,      \* assignments made by the last step: sequence of [id, a, S]
     \* ---- ghost ----
-    usedBy    \* token -> set of <<id, attempt>> the pair was assigned to, history-wide
+    usedBy,   \* token -> set of <<id, attempt>> the pair was assigned to, history-wide
+    pchg      \* signing_period was changed at some point of this history
 
 core  == <<h, params, q, nser, tssAct, ownAct, cool, count, sig, att, tok, exps, pend, mapped, nSucc, nFail>>
 vars  == <<h, params, q, nser, tssAct, ownAct, cool, count, sig, att, tok, exps, pend, mapped, nSucc, nFail,
-           out, pen, ret, usedBy>>
+           out, pen, ret, usedBy, pchg>>
 
 NoSig == [status |-> "NONE", attempt |-> 0, created |-> 0]
 NoAtt == [present |-> FALSE, a |-> 0, mem |-> {}, expH |-> 0, signed |-> {}]
-NoTok == [a |-> 0, asg |-> <<>>]
+NoTok == [a |-> 0, asg |-> [m \in {} |-> 0]]
+
+T == params.t                        \* group threshold = committee size
 
 Range(s) == {s[i] : i \in 1..Len(s)}
 Hd(s) == IF s = <<>> THEN 0 ELSE Head(s)         \* total versions (0 is no serial)
@@ -95,7 +98,7 @@ NoPick == [id \in Ids |-> {}]
 
 Init ==
     /\ h = 2
-    /\ params \in [maxDE : MaxDESet, maxAtt : MaxAttSet, period : PeriodSet, penalty : PenaltySet]
+    /\ params \in [t : TSet, maxDE : MaxDESet, maxAtt : MaxAttSet, period : PeriodSet, penalty : PenaltySet]
     /\ q = [a \in Addr |-> <<>>]
     /\ nser = [a \in Addr |-> 0]
     /\ tssAct = [m \in Member |-> TRUE]
@@ -111,9 +114,10 @@ Init ==
     /\ nFail = [id \in Ids |-> 0]
     /\ out = "init" /\ pen = {} /\ ret = <<>>
     /\ usedBy = [t \in Token |-> {}]
+    /\ pchg = FALSE
 
 Rejected == /\ out' = "rej" /\ pen' = {} /\ ret' = <<>>
-            /\ UNCHANGED <<core, usedBy>>
+            /\ UNCHANGED <<core, usedBy, pchg>>
 
 (***************************************************************************)
 (* MsgSubmitDEs: EnqueueDEs refuses iff queue length + k > max_de_size.    *)
@@ -125,14 +129,14 @@ SubmitDEs(a, k) ==
        THEN /\ q' = [q EXCEPT ![a] = @ \o [i \in 1..k |-> nser[a] + i]]
             /\ nser' = [nser EXCEPT ![a] = @ + k]
             /\ out' = "ok" /\ pen' = {} /\ ret' = <<>>
-            /\ UNCHANGED <<h, params, tssAct, ownAct, cool, count, sig, att, tok, exps, pend, mapped, nSucc, nFail, usedBy>>
+            /\ UNCHANGED <<h, params, tssAct, ownAct, cool, count, sig, att, tok, exps, pend, mapped, nSucc, nFail, usedBy, pchg>>
        ELSE Rejected
 
 (* MsgResetDE: every queued pair of the sender is deleted *)
 ResetDE(a) ==
     /\ q' = [q EXCEPT ![a] = <<>>]
     /\ out' = "ok" /\ pen' = {} /\ ret' = <<>>
-    /\ UNCHANGED <<h, params, nser, tssAct, ownAct, cool, count, sig, att, tok, exps, pend, mapped, nSucc, nFail, usedBy>>
+    /\ UNCHANGED <<h, params, nser, tssAct, ownAct, cool, count, sig, att, tok, exps, pend, mapped, nSucc, nFail, usedBy, pchg>>
 
 (***************************************************************************)
 (* The running state threaded through the steps that create attempts.      *)
@@ -176,7 +180,7 @@ RequestEffect(S) ==
     /\ count < MaxSig                                    \* model bound only
     /\ Commit(Create(Run0, S))
     /\ out' = "ok" /\ pen' = {}
-    /\ UNCHANGED <<h, params, nser, tssAct, ownAct, cool, pend, nSucc>>
+    /\ UNCHANGED <<h, params, nser, tssAct, ownAct, cool, pend, nSucc, pchg>>
 RequestOK(S) == RequestGuard(S) /\ RequestEffect(S)
 RequestRejGuard == Cardinality(Avail(q, tssAct)) < T
 RequestRej == RequestRejGuard /\ Rejected
@@ -199,7 +203,7 @@ SubmitSig(m, id, valid) ==
     THEN /\ att' = [att EXCEPT ![id].signed = @ \cup {m}]
          /\ pend' = IF att[id].signed \cup {m} = att[id].mem THEN Append(pend, id) ELSE pend
          /\ out' = "ok" /\ pen' = {} /\ ret' = <<>>
-         /\ UNCHANGED <<h, params, q, nser, tssAct, ownAct, cool, count, sig, tok, exps, mapped, nSucc, nFail, usedBy>>
+         /\ UNCHANGED <<h, params, q, nser, tssAct, ownAct, cool, count, sig, tok, exps, mapped, nSucc, nFail, usedBy, pchg>>
     ELSE Rejected
 
 (***************************************************************************)
@@ -211,7 +215,7 @@ Activate(a) ==
     THEN /\ ownAct' = [ownAct EXCEPT ![a] = TRUE]
          /\ tssAct' = [tssAct EXCEPT ![a] = TRUE]
          /\ out' = "ok" /\ pen' = {} /\ ret' = <<>>
-         /\ UNCHANGED <<h, params, q, nser, cool, count, sig, att, tok, exps, pend, mapped, nSucc, nFail, usedBy>>
+         /\ UNCHANGED <<h, params, q, nser, cool, count, sig, att, tok, exps, pend, mapped, nSucc, nFail, usedBy, pchg>>
     ELSE Rejected
 
 (***************************************************************************)
@@ -278,9 +282,24 @@ EndBlockP(npre, pr, P) ==
     /\ pend' = <<>>
     /\ h' = h + 1
     /\ out' = "ok"
-    /\ UNCHANGED <<params, nser>>
+    /\ UNCHANGED <<params, nser, pchg>>
 
-EndBlock(npre) == \E pr \in Prios : EndBlockP(npre, pr, NoPick)
+\* the sampler's choice matters only when some attempt is created in this end-block
+NoCreation(npre) == npre = 0 /\ \A e \in Range(exps) : att[e[1]].expH > h \/ att[e[1]].signed = att[e[1]].mem
+EndBlock(npre) ==
+    IF NoCreation(npre) THEN EndBlockP(npre, CHOOSE pr \in Prios : TRUE, NoPick)
+    ELSE \E pr \in Prios : EndBlockP(npre, pr, NoPick)
+
+(***************************************************************************)
+(* Environment: governance changes signing_period (MsgUpdateParams).       *)
+(* Attempts already stored keep their expiry height.                       *)
+(***************************************************************************)
+SetPeriod(p) ==
+    /\ p # params.period
+    /\ params' = [params EXCEPT !.period = p]
+    /\ pchg' = TRUE
+    /\ out' = "ok" /\ pen' = {} /\ ret' = <<>>
+    /\ UNCHANGED <<h, q, nser, tssAct, ownAct, cool, count, sig, att, tok, exps, pend, mapped, nSucc, nFail, usedBy>>
 
 Next ==
     \/ \E a \in Addr, k \in KSet : SubmitDEs(a, k)
@@ -291,6 +310,7 @@ Next ==
     \/ \E m \in Addr, id \in Ids, valid \in BOOLEAN : SubmitSig(m, id, valid)
     \/ \E a \in Addr : Activate(a)
     \/ \E n \in PreSet : EndBlock(n)
+    \/ \E p \in PeriodSet : SetPeriod(p)
 
 Spec == Init /\ [][Next]_vars /\ WF_vars(EndBlock(0))
 
@@ -356,13 +376,13 @@ InvC10 == ExpsSound /\ Lifecycle /\ PendSound /\ CallbackOnce /\ FlagsAgree
 
 \* while signing_period is unchanged: no stored attempt is overdue at the start of a block (it was
 \* consumed at the end of block expH exactly), and the FIFO is sorted by expiry
-OnTime ==
+OnTime == pchg \/
     /\ \A id \in Ids : att[id].present => att[id].expH >= h /\ att[id].expH <= h + params.period
     /\ \A i, j \in 1..Len(exps) : i < j => att[exps[i][1]].expH <= att[exps[j][1]].expH
     /\ \A id \in Ids : sig[id].status = "WAITING" =>
             att[id].expH = sig[id].created + sig[id].attempt * params.period
 \* bounded termination (safety form of the liveness property)
-BoundedTermination ==
+BoundedTermination == pchg \/
     \A id \in Ids : sig[id].status = "WAITING" => h <= sig[id].created + params.maxAtt * params.period
 
 Inv == TypeOK /\ InvC05 /\ InvC10
@@ -394,10 +414,12 @@ QueueStepA ==
         \/ q'[a] = <<>> /\ NewCnt(a) = 0 /\ out' = "ok" /\ ~EndStep
         \/ NewCnt(a) > 0
 \* committee members are tss-active (after this step's deactivations) and had a queued pair
+\* (first attempts are drawn before the end-block's expiry phase, retries after it)
 EligibleA == \A id \in Ids : Changed(id) =>
-                \A m \in DOMAIN tok'[id].asg : m \in Member /\ tssAct'[m] /\ q[m] # <<>>
+                \A m \in DOMAIN tok'[id].asg : /\ m \in Member /\ q[m] # <<>>
+                                                /\ (IF tok'[id].a = 1 THEN tssAct[m] ELSE tssAct'[m])
 \* a rejected step (incl. a rolled-back creation) changes nothing
-RejectedA == out' = "rej" => UNCHANGED <<core, usedBy>>
+RejectedA == out' = "rej" => UNCHANGED <<core, usedBy, pchg>>
 \* the ghost grows exactly by the announced assignments
 GhostA == \A t \in Token : usedBy'[t] = usedBy[t] \cup
               {<<id, tok'[id].a>> : id \in {i \in Ids : Changed(i) /\ t[1] \in DOMAIN tok'[i].asg /\ tok'[i].asg[t[1]] = t[2]}}
@@ -421,9 +443,9 @@ AttemptA ==
 \* (never before the period has passed) ...
 NoEarlyTimeoutA ==
     \A id \in Ids : (att[id].present /\ (~att'[id].present \/ att'[id].a # att[id].a)) =>
-                        EndStep /\ att[id].expH <= h
+                        EndStep /\ att[id].expH <= h /\ (att'[id].present => att'[id].a = att[id].a + 1)
 \* ... and (period unchanged) exactly then: at the end of block expH the record is consumed
-ExactTimeoutA ==
+ExactTimeoutA == pchg \/ pchg' \/
     \A id \in Ids : (EndStep /\ att[id].present /\ att[id].expH <= h) =>
                         (~att'[id].present \/ att'[id].a = att[id].a + 1)
 \* a new attempt record: fresh, empty, expires one period later
@@ -438,23 +460,26 @@ SuccessA ==
     \A id \in Ids :
         /\ (sig[id].status = "WAITING" /\ sig'[id].status = "SUCCESS") => att[id].signed = att[id].mem
         /\ (EndStep /\ sig[id].status = "WAITING" /\ att[id].signed = att[id].mem) => sig'[id].status = "SUCCESS"
-\* a time-out (due, not all signed) leads to a retry with the next attempt number or to FALLEN; FALLEN
-\* only from a time-out; the attempt bound is respected
+\* the stored attempt record of id is consumed by this step (its FIFO entry was processed)
+Consumed(id) == att[id].present /\ (~att'[id].present \/ att'[id].a # att[id].a)
+\* a time-out (entry consumed, not all signed) leads to a retry with the next attempt number or to FALLEN;
+\* FALLEN only from a time-out; the attempt bound is respected
 TimeoutA ==
     \A id \in Ids :
-        /\ (EndStep /\ sig[id].status = "WAITING" /\ att[id].expH <= h /\ att[id].signed # att[id].mem) =>
+        /\ (sig[id].status = "WAITING" /\ Consumed(id) /\ att[id].signed # att[id].mem) =>
                \/ sig'[id].status = "FALLEN" /\ ~att'[id].present /\ sig'[id].attempt = sig[id].attempt
                \/ sig'[id].status = "WAITING" /\ att'[id].present /\ att'[id].a = sig[id].attempt + 1
                      /\ sig[id].attempt < params.maxAtt
         /\ (sig[id].status = "WAITING" /\ sig'[id].status = "FALLEN") =>
-               att[id].expH <= h /\ att[id].signed # att[id].mem
+               Consumed(id) /\ att[id].expH <= h /\ att[id].signed # att[id].mem
         \* used-up attempts always end in FALLEN
-        /\ (EndStep /\ sig[id].status = "WAITING" /\ att[id].expH <= h /\ att[id].signed # att[id].mem
+        /\ (sig[id].status = "WAITING" /\ Consumed(id) /\ att[id].signed # att[id].mem
                /\ sig[id].attempt = params.maxAtt) => sig'[id].status = "FALLEN"
+        \* a consumed record whose members all signed belongs to a signing that is (now) SUCCESS
+        /\ (Consumed(id) /\ att[id].signed = att[id].mem) => sig'[id].status = "SUCCESS" /\ ~att'[id].present
 \* exactly the assigned members that did not sign an attempt timing out now are penalised (once)
 PenaltyA ==
-    LET idleNow == {m \in Member : \E id \in Ids : /\ EndStep /\ att[id].present /\ att[id].expH <= h
-                                                   /\ att[id].signed # att[id].mem
+    LET idleNow == {m \in Member : \E id \in Ids : /\ Consumed(id) /\ att[id].signed # att[id].mem
                                                    /\ m \in att[id].mem \ att[id].signed}
     IN /\ pen' = {m \in idleNow : ownAct[m]}
        /\ \A m \in Member : /\ (ownAct[m] /\ ~ownAct'[m]) <=> m \in pen'
@@ -492,27 +517,29 @@ Callback == [][CallbackA]_vars
 
 (***************************************************************************)
 (* The DE part of a step, taken alone: given the assignments `rets` the    *)
-(* step made (in order) and the tss flags `act` in force when it made them,*)
+(* step made (in order) and the tss flags in force when it made them       *)
+(* (first attempts: before the expiry phase; retries: after it),           *)
 (* the effect on queues / announced pairs / ghost.  Every step of the      *)
 (* specification satisfies it (DEPartOK) - this is what the C05 trace      *)
 (* check uses when the life-cycle decisions (which signings are retried    *)
 (* and when) are assumed as observed.                                      *)
 (***************************************************************************)
-RECURSIVE DEFold(_, _, _)
-DEFold(rets, st, act) ==
+RECURSIVE DEFold(_, _, _, _)
+DEFold(rets, st, actPre, actPost) ==
     IF rets = <<>> THEN st
     ELSE LET r == Head(rets)
              S == r.S
+             act == IF r.a = 1 THEN actPre ELSE actPost
          IN DEFold(Tail(rets),
                    [q    |-> [m \in Addr |-> IF m \in S THEN Tl(st.q[m]) ELSE st.q[m]],
                     tok  |-> [st.tok EXCEPT ![r.id] = [a |-> r.a, asg |-> [m \in S |-> Hd(st.q[m])]]],
                     used |-> [t \in Token |-> IF t[1] \in S /\ t[2] = Hd(st.q[t[1]]) THEN st.used[t] \cup {<<r.id, r.a>>} ELSE st.used[t]],
                     ok   |-> st.ok /\ S \subseteq Avail(st.q, act) /\ Cardinality(S) = T],
-                   act)
-DEPart(rets, act) ==
-    LET f == DEFold(rets, [q |-> q, tok |-> tok, used |-> usedBy, ok |-> TRUE], act)
+                   actPre, actPost)
+DEPart(rets, actPre, actPost) ==
+    LET f == DEFold(rets, [q |-> q, tok |-> tok, used |-> usedBy, ok |-> TRUE], actPre, actPost)
     IN f.ok /\ q' = f.q /\ tok' = f.tok /\ usedBy' = f.used
-DEPartA == (ret' # <<>> \/ EndStep) => DEPart(ret', tssAct')
+DEPartA == (ret' # <<>> \/ EndStep) => DEPart(ret', tssAct, tssAct')
 DEPartOK == [][DEPartA]_vars
 
 (* Liveness: every signing terminates *)
